@@ -187,14 +187,15 @@ def run(case):
         nd = mesh.dim
         w = region.dV * (2 * np.pi * field[0].radius if case["fk"] == "axi" else 1.0)
         V = float(np.sum(w))
-        for vals, scale_ in (([0.3, -0.2, 0.5], 1.5), ([1.0, 0.0, 0.0], -2.0), ([0.0, 0.0, 0.0], 3.0)):
+        # (the last two: earth gravity on steel in the unit systems mm-g-us (values 1e-8, density 1e-3) and mm-t-s (1e4, 1e-9))
+        for vals, scale_ in (([0.3, -0.2, 0.5], 1.5), ([1.0, 0.0, 0.0], -2.0), ([0.0, 0.0, 0.0], 3.0), ([9.81e-9, -2.0e-9, 0.0], 7.85e-3), ([9.81e3, 0.0, -1.0e3], 7.85e-9)):
             v = vals[:nd] if case["fk"] != "axi" else [vals[0], vals[1], 0.0]
             for item, lab in ((fem.SolidBodyForce(field, values=v, scale=scale_), "force"), (fem.SolidBodyGravity(field, gravity=v, density=scale_), "gravity")):
                 r = item.assemble.vector(field).toarray()[:, 0]
                 c.trans += 1
                 f = nodal(field, r)
                 gm = geometry_nodes(case["mesh"], mesh)
-                c.close(f"{lab}/values={vals}/scale={scale_}", "resultant of the body force vector", f[gm].sum(0), scale_ * np.array(v[:nd]) * V, max(abs(scale_) * V, 1e-9))
+                c.close(f"{lab}/values={vals}/scale={scale_}", "resultant of the body force vector", f[gm].sum(0), scale_ * np.array(v[:nd]) * V, max(abs(scale_) * V * max(np.abs(v).max(), 1e-300), 1e-300))
                 if item.assemble.multiplier != -1.0:
                     c.bad(f"{lab}/multiplier", "a load enters the residual with multiplier -1", item.assemble.multiplier, -1.0)
         # update histories: items created with one value (integers, floats, zeros) and then updated (as a Step ramp does), every
